@@ -42,6 +42,19 @@ def envs(tier):
 	return [dict()]
 
 
+def worker_init(args):
+	"""Line-event counts (pre-emption points of interleaved task bodies) depend a little on what the process executed
+	before (first-time tracing of a code object in CPython 3.12, library caches): every worker runs a few fixed,
+	unjudged interleaved executions first."""
+	from .. import engine
+	root = engine.scratch_root()
+	for r in (1, 2, 5, 6, 9):
+		try:
+			engine.execute(scenario, PROP, 987654321, r, 'quick', root=root)
+		except Exception:
+			pass
+
+
 def _kspec(ch):
 	from gambit.kmers import KmerSpec
 	k = ch.pick([6, 5, 7, 4, 8, 3, 12], 'k')
